@@ -21,7 +21,8 @@ E == Trace[l]
 
 TInit == l = 0 /\ input = <<>> /\ m = M0
 TNext == /\ UNCHANGED <<input, m>>
-         /\ \/ l = 0 /\ l' \in {k \in 1..Len(Trace) : k % ChunkSize = 1 \/ ChunkSize = 1}
+         /\ \/ l = 0 /\ l' \in {-k : k \in {j \in 1..Len(Trace) : j % ChunkSize = 1 \/ ChunkSize = 1}}   \* enter a chunk (no check yet,
+            \/ l < 0 /\ l' = -l                                  \* so that chunk heads are checked by different workers)
             \/ l > 0 /\ l < Len(Trace) /\ l % ChunkSize # 0 /\ l' = l + 1
 TSpec == TInit /\ [][TNext]_tvars
 
